@@ -186,3 +186,46 @@ def block_estimator_deviation():
         ref = float((el * wts).sum() / wts.sum())
         worst = max(worst, abs(float(e) - ref))
     return worst
+
+
+def phaseless_weight_deviation(restricted=True, dt=0.05, seed=7):
+    """native replay for C04: one real propagate() step on generic complex walkers against the importance-sampling formula of the
+    statement, written out independently with the public force bias / overlap:
+        xbar = -sqrt(dt) (i f - mf),  I = exp(-sqrt(dt) sum (x - xbar) mf + sum (x xbar - xbar^2/2) + dt (E_shift + h0_prop)) O'/O,
+        theta = arg(exp(-sqrt(dt) sum (x - xbar) mf) O'/O),  w' = w |I| max(0, cos theta)   (0 outside [1e-3, 100])."""
+    S = small_system(norb=3, nocc=1, nchol=2, seed=seed, restricted=restricted, n_walkers=6, dt=dt)
+    import jax.numpy as jnp
+    trial, wave, ham = S["trial"], S["wave"], S["ham"]
+    prop = S["prop_cls"](dt=dt, n_walkers=6)
+    hd = ham.build_measurement_intermediates(dict(S["ham_data"]), trial, wave)
+    hd = ham.build_propagation_intermediates(hd, prop, trial, wave)
+    rng = np.random.default_rng(seed + 1)
+    nw, norb, nocc = 6, S["norb"], S["nocc"]
+    mo = np.asarray(wave["mo_coeff"] if restricted else wave["mo_coeff"][0])
+
+    def walker():
+        return mo + 0.3 * (rng.normal(size=(norb, nocc)) + 1j * rng.normal(size=(norb, nocc)))
+    if restricted:
+        walkers = jnp.array([walker() for _ in range(nw)])
+    else:
+        walkers = [jnp.array([walker() for _ in range(nw)]), jnp.array([walker() for _ in range(nw)])]
+    O = trial.calc_overlap(walkers, wave)
+    w = rng.uniform(0.3, 1.0, size=nw)
+    pd = dict(walkers=walkers, weights=jnp.array(w), overlaps=O, pop_control_ene_shift=jnp.array(-0.7), e_estimate=jnp.array(-0.7))
+    x = rng.normal(size=(nw, hd["chol"].shape[0]))
+    f = np.asarray(trial.calc_force_bias(walkers, hd, wave))
+    out = prop.propagate(trial, hd, dict(pd), jnp.array(x), wave)
+    On = np.asarray(trial.calc_overlap(out["walkers"], wave))
+    mf = np.asarray(hd["mf_shifts"])
+    xbar = -np.sqrt(dt) * (1j * f - mf)
+    xs = x - xbar
+    ratio = On / np.asarray(O)
+    I = np.exp(-np.sqrt(dt) * (xs * mf).sum(1) + (x * xbar - xbar * xbar / 2).sum(1) + dt * (-0.7 + complex(hd["h0_prop"]))) * ratio
+    th = np.angle(np.exp(-np.sqrt(dt) * (xs * mf).sum(1)) * ratio)
+    fac = np.abs(I) * np.cos(th)
+    fac = np.where(np.isnan(fac) | (fac < 1e-3) | (fac > 100.0), 0.0, fac)
+    w_ref = fac * w
+    w_ref = np.where(w_ref > 100.0, 0.0, w_ref)
+    dev = float(np.abs(np.asarray(out["weights"]) - w_ref).max())
+    return dev, dict(dt=dt, restricted=restricted, fields=x.tolist(), incoming_weights=w.tolist(), weights_after_step=np.asarray(out["weights"]).tolist(),
+                     weights_from_formula=w_ref.tolist(), max_abs_deviation=dev)
